@@ -31,6 +31,10 @@ Inductive mfn :=
       (lines : list bytes)            (* source text split at "\n" (decorator included, trailing "") *)
       (params : list param)
       (annot : option bytes)          (* path of the @dds.data_function decorator *)
+      (is_class : bool)               (* false: `def f(params): <stmts> return (tag, ...)`;
+                                         true: `class f:` with two methods, `def __init__(self, params): <stmts>
+                                         self.v = (tag, ...)` and `def get(self): return self.v`.  A class is only ever
+                                         the callee of an MCall, written `x<i> = g(args).v` *)
       (modvars : list (bytes * (bool * pyval * bytes)))
                                       (* module variables READ by the body, in any order: name, (is the value of a
                                          tracked type, value, canonical name "pkg/mod/NAME") *)
@@ -38,22 +42,23 @@ Inductive mfn :=
                                          local name, canonical name *)
       (stmts : list mstmt)
 with mstmt :=
-| MCall (line : nat) (sp : spelling) (callee : mfn) (args : list mexpr)     (* x<i> = g(args) *)
+| MCall (line : nat) (sp : spelling) (callee : mfn) (args : list mexpr)     (* x<i> = g(args)   (g(args).v for a class) *)
 | MApply (line : nat) (sp : spelling) (callee : mfn)                        (* x<i> = vlogmod.apply(g) *)
 | MKeep (line eline refline : nat) (path : bytes) (sp : spelling) (callee : mfn)
         (pos : list mexpr) (kw : list (bytes * mexpr))                      (* x<i> = dds.keep(path, g, *pos, **kw):
                                                                                line of `dds.keep(`, of `)`, of `g` *)
 | MLoad (path : bytes).                                                     (* x<i> = dds.load(path) *)
 
-Definition mfn_cname (f : mfn) : bytes := match f with MFn c _ _ _ _ _ _ _ _ => c end.
-Definition mfn_tag (f : mfn) : bytes := match f with MFn _ t _ _ _ _ _ _ _ => t end.
-Definition mfn_raises (f : mfn) : option bytes := match f with MFn _ _ r _ _ _ _ _ _ => r end.
-Definition mfn_lines (f : mfn) : list bytes := match f with MFn _ _ _ l _ _ _ _ _ => l end.
-Definition mfn_params (f : mfn) : list param := match f with MFn _ _ _ _ p _ _ _ _ => p end.
-Definition mfn_annot (f : mfn) : option bytes := match f with MFn _ _ _ _ _ a _ _ _ => a end.
-Definition mfn_modvars (f : mfn) : list (bytes * (bool * pyval * bytes)) := match f with MFn _ _ _ _ _ _ v _ _ => v end.
-Definition mfn_helpers (f : mfn) : list (bytes * bytes) := match f with MFn _ _ _ _ _ _ _ h _ => h end.
-Definition mfn_stmts (f : mfn) : list mstmt := match f with MFn _ _ _ _ _ _ _ _ s => s end.
+Definition mfn_cname (f : mfn) : bytes := match f with MFn c _ _ _ _ _ _ _ _ _ => c end.
+Definition mfn_tag (f : mfn) : bytes := match f with MFn _ t _ _ _ _ _ _ _ _ => t end.
+Definition mfn_raises (f : mfn) : option bytes := match f with MFn _ _ r _ _ _ _ _ _ _ => r end.
+Definition mfn_lines (f : mfn) : list bytes := match f with MFn _ _ _ l _ _ _ _ _ _ => l end.
+Definition mfn_params (f : mfn) : list param := match f with MFn _ _ _ _ p _ _ _ _ _ => p end.
+Definition mfn_annot (f : mfn) : option bytes := match f with MFn _ _ _ _ _ a _ _ _ _ => a end.
+Definition mfn_is_class (f : mfn) : bool := match f with MFn _ _ _ _ _ _ k _ _ _ => k end.
+Definition mfn_modvars (f : mfn) : list (bytes * (bool * pyval * bytes)) := match f with MFn _ _ _ _ _ _ _ v _ _ => v end.
+Definition mfn_helpers (f : mfn) : list (bytes * bytes) := match f with MFn _ _ _ _ _ _ _ _ h _ => h end.
+Definition mfn_stmts (f : mfn) : list mstmt := match f with MFn _ _ _ _ _ _ _ _ _ s => s end.
 
 Definition mstmt_callee (s : mstmt) : option mfn :=
   match s with
@@ -70,7 +75,7 @@ Definition mstmt_spelling (s : mstmt) : option spelling :=
 Section Ind.
   Variable P : mfn -> Prop.
   Variable Q : mstmt -> Prop.
-  Hypothesis HFn : forall c t r l p a v h ss, Forall Q ss -> P (MFn c t r l p a v h ss).
+  Hypothesis HFn : forall c t r l p a k v h ss, Forall Q ss -> P (MFn c t r l p a k v h ss).
   Hypothesis HCall : forall line sp g args, P g -> Q (MCall line sp g args).
   Hypothesis HApply : forall line sp g, P g -> Q (MApply line sp g).
   Hypothesis HKeep : forall line eline rl path sp g pos kw, P g -> Q (MKeep line eline rl path sp g pos kw).
@@ -78,8 +83,8 @@ Section Ind.
 
   Fixpoint mfn_ind' (f : mfn) : P f :=
     match f with
-    | MFn c t r l p a v h ss =>
-      HFn c t r l p a v h ss
+    | MFn c t r l p a k v h ss =>
+      HFn c t r l p a k v h ss
         ((fix go (l : list mstmt) : Forall Q l :=
             match l with
             | [] => Forall_nil _
